@@ -1966,13 +1966,16 @@ class DynamicSeedingInstrumentation(transformer.DynamicSeedingInstrumentationAda
         instr: Instr,
         instr_index: int,
     ) -> None:
+        # The receiver and the argument are handed over as they are: concatenating them
+        # on the stack of the module under test would raise for non-string arguments,
+        # e.g., for a tuple of prefixes.
         node.basic_block[before(instr_index + 2)] = (
             self.instructions_generator.generate_instructions(
-                InstrumentationSetupAction.ADD_FIRST_TWO_REVERSED,
+                InstrumentationSetupAction.COPY_FIRST_TWO,
                 InstrumentationMethodCall(
                     self._dynamic_constant_provider,
-                    DynamicConstantProvider.add_value.__name__,
-                    (InstrumentationStackValue.FIRST,),
+                    DynamicConstantProvider.add_concatenated_value.__name__,
+                    (InstrumentationStackValue.FIRST, InstrumentationStackValue.SECOND),
                 ),
                 instr.lineno,
             )
@@ -1991,11 +1994,11 @@ class DynamicSeedingInstrumentation(transformer.DynamicSeedingInstrumentationAda
     ) -> None:
         node.basic_block[before(instr_index + 2)] = (
             self.instructions_generator.generate_instructions(
-                InstrumentationSetupAction.ADD_FIRST_TWO,
+                InstrumentationSetupAction.COPY_FIRST_TWO,
                 InstrumentationMethodCall(
                     self._dynamic_constant_provider,
-                    DynamicConstantProvider.add_value.__name__,
-                    (InstrumentationStackValue.FIRST,),
+                    DynamicConstantProvider.add_concatenated_value.__name__,
+                    (InstrumentationStackValue.SECOND, InstrumentationStackValue.FIRST),
                 ),
                 instr.lineno,
             )
